@@ -302,6 +302,13 @@ func (ig *ingest) roundRules(e *Effect) {
 		ev := a.NewEval(e, ig.r)
 		n := len(ev.Find(ErrNil(Ext(1, Call("state.SetHeightAndResetView", k.State, Var("nh"))))))
 		ev.Verdict("H6.cb", props("C13"), "the new-round callback runs only after a successful strict height increase", "", n > 0, "no successful SetHeightAndResetView on the path")
+		okH := false
+		for _, b := range ev.Find(ErrNil(Ext(1, Call("state.SetHeightAndResetView", k.State, Var("nh"))))) {
+			if ev.Same(ev.Arg(1), b["nh"]) || ev.Same(ev.Arg(1), unfreeze(b["nh"])) {
+				okH = true
+			}
+		}
+		ev.Verdict("H6.cb.height", props("C13"), "the height reported to the new-round callback is the height this round has just set (not a later re-read that a nested round may already have advanced)", "", okH, "height argument is "+PP(ev.Arg(1)))
 	case e.Kind == "call" && e.Name == "leanhelix.onNewConsensusRound" && len(e.Args) == 4 && e.Entry == idE4 && len(e.Path) == 1:
 		ev := a.NewEval(e, ig.r)
 		blk := ev.Arg(1)
